@@ -294,6 +294,9 @@ class SymDA:
     def conj(self):
         return self._new(tm.conj(self.term)) if self.cplx else self
 
+    def dot(self, other, dims=None, dim=None):
+        return XRFacade().dot(self, other, dims=dims, dim=dim)
+
     @property
     def real(self):
         return self._new(tm.re(self.term), cplx=False) if self.cplx else self
@@ -378,6 +381,14 @@ class SymDA:
     def expand_dims(self, d):
         raise Unsupported("expand_dims")
 
+    def shift(self, shifts=None, **kw):
+        shifts = dict(shifts or {}, **kw)
+        (d, k), = shifts.items()
+        self._axis(d)
+        if not (type(k) in (int, _np.int64, _np.int32) and k <= 0):
+            raise Unsupported("shift by a positive or symbolic lag")
+        return _Shifted(self, d, -int(k))
+
     # ---- label based selection
     def sel(self, m=None, drop=False, **kw):
         m = dict(m or {}, **kw)
@@ -447,6 +458,8 @@ class SymDA:
                 r = r._permute(d, v.da.mark)
             elif isinstance(v, Argsort):
                 r = r._permute(d, v)
+            elif type(v) is slice and v.start is None and v.stop is None and v.step == -1:
+                r = r._reverse(d)
             elif type(v) is slice and v.start is None and v.step is None:
                 r = r._prefix(d, v.stop)
             elif type(v) is slice and v.start in (0, None) and v.step is None:
@@ -465,6 +478,22 @@ class SymDA:
         tags = set(self.tags & {"nonneg"})
         if len(self._dims) == 1 and a.of is self.term:
             tags.add("desc" if a.rev else "asc")
+        return self._new(t, None, None, cid, tags=tags)
+
+    def _reverse(self, d):
+        """x.isel(d=slice(None, None, -1)): the order-reversing permutation along d"""
+        e = self._ext[d]
+        P = tm.sym(f"Perm[rev|{e.name}]", e, e, ("real", "unit", "inv"))
+        t = self._side(d, P)
+        if len(self._dims) == 1:
+            t = tm.T(t.op, t.args, t.rows, t.cols, self.term.props & {"diag", "real", "pos", "herm", "inv", "nonneg"})
+        cid = dict(self._cid)
+        cid[d] = ("perm", self._cid.get(d), "rev")
+        tags = set(self.tags & {"nonneg"})
+        if "asc" in self.tags:
+            tags.add("desc")
+        if "desc" in self.tags:
+            tags.add("asc")
         return self._new(t, None, None, cid, tags=tags)
 
     # ---- arithmetic
@@ -649,6 +678,42 @@ SymDA.__name__ = "DataArray"
 SymDA.__qualname__ = "DataArray"
 
 
+class _Shifted:
+    """X.shift({dim: -k}): only .dropna(dim) is modelled (rows k..n-1 carried by the labels of rows 0..n-k-1)"""
+
+    def __init__(self, da, dim, k):
+        self.da, self.dim, self.k = da, dim, k
+
+    @property
+    def __class__(self):
+        return _xr.DataArray
+
+    def dropna(self, dim, **kw):
+        da, d, k = self.da, self.dim, self.k
+        if dim != d:
+            raise Unsupported("dropna along another dim")
+        if k == 0:
+            return da.copy()
+        da._force("dropna")
+        old = da._ext[d]
+        new = ext_of(old.z - k)
+        if not decide(old.z > k):
+            raise Unsupported("lag not smaller than the number of samples")
+        W = tm.sym(f"Win[{k}:{old.name}|{old.name}]", old, new, ("real",))
+        ctx().hyps.append((tm.mul(tm.Tr(W), W), tm.I(new), "row window is an isometry"))
+        t = da._side(d, W)
+        ext = dict(da._ext)
+        ext[d] = new
+        cid = dict(da._cid)
+        cid[d] = ("prefix", da._cid.get(d), new.name)
+        return da._new(t, None, ext, cid)
+
+    def __getattr__(self, k):
+        if k.startswith("__"):
+            raise AttributeError(k)
+        raise Unsupported("shifted array: only dropna along the shifted dim is modelled")
+
+
 class CumSum:
     """cumulative sum c_1..c_k of a 1-d array x (c_j = x_1 + ... + x_j), kept abstract: an uninterpreted
     sequence cum(j) that is non-decreasing when x is known non-negative (contract of cumsum + arithmetic)"""
@@ -732,6 +797,8 @@ class NDView:
 
     @property
     def T(self):
+        if len(self.da._dims) == 2:
+            return NDView(self.da._new(tm.Tr(self.da.term), self.da._dims[::-1]))
         raise Unsupported(".data.T of a proxy")
 
     def __getattr__(self, k):
@@ -772,9 +839,36 @@ def mk_da(name, dims, exts, cplx=False, props=(), lazy=False, owner="fresh", cid
 
 
 # ------------------------------------------------------------------------- facades
+class _DAFacadeMeta(type):
+    def __instancecheck__(cls, o):
+        return builtins.isinstance(o, _xr.DataArray)
+
+    def __call__(cls, data=None, *a, dims=None, coords=None, **k):
+        if isinstance(data, NDView):
+            # xr.DataArray(x.data.T, dims=..., coords=...): positional re-labelling of a buffer
+            src = data.da
+            dims = tuple(dims)
+            if len(dims) != len(src._dims):
+                raise ValueError("different number of dimensions on data and dims")
+            ext = {d: src._ext[o] for d, o in zip(dims, src._dims)}
+            cid = {}
+            if isinstance(coords, _Coords):
+                for d in dims:
+                    c_ = coords.da._cid.get(d) if d in coords.da._dims else None
+                    if c_ is not None and not same_ext(coords.da._ext[d], ext[d]):
+                        raise ValueError(f"conflicting sizes for dimension {d!r}")
+                    cid[d] = c_
+            return SymDA(src.term, dims, ext, cid, src.cplx, src.lazy)
+        return _xr.DataArray(data, *a, dims=dims, coords=coords, **k)
+
+
+class _DAFacade(metaclass=_DAFacadeMeta):
+    pass
+
+
 class XRFacade:
     """stands in for `xr` inside a traced module: only entry points with a contract"""
-    DataArray = _xr.DataArray
+    DataArray = _DAFacade
     Dataset = _xr.Dataset
     DataTree = _xr.DataTree
 
@@ -803,6 +897,16 @@ class XRFacade:
             raise ValueError(f"contracted dimension {d!r} missing from an operand")
         shared = [x for x in a._dims if x in b._dims and x != d]
         ca, cb = a._cid.get(d), b._cid.get(d)
+        def _pref(x, y):
+            return isinstance(x, tuple) and x and x[0] == "prefix" and cid_equal(x[1], y)
+        if ca is not None and cb is not None and _pref(ca, cb):
+            b = b._prefix(d, PNum(a._ext[d].z))        # inner join: the labels of a are the leading labels of b
+            b = b._new(b.term, cid={**b._cid, d: ca})
+            cb = ca
+        elif ca is not None and cb is not None and _pref(cb, ca):
+            a = a._prefix(d, PNum(b._ext[d].z))
+            a = a._new(a.term, cid={**a._cid, d: cb})
+            ca = cb
         if ca is not None and cb is not None and not cid_equal(ca, cb) and same_ext(a._ext[d], b._ext[d]) is False \
                 or (ca is not None and cb is not None and not cid_equal(ca, cb)):
             # xarray aligns the operands on their common labels (inner join) before contracting
@@ -872,6 +976,7 @@ class _Linalg:
         self.pinv = _Token("np.linalg.pinv", ndlib.nd_pinv)
         self.eig = _Token("np.linalg.eig", ndlib.nd_eig)
         self.norm = _Token("np.linalg.norm", ndlib.nd_norm)
+        self.eigh = _Token("np.linalg.eigh")
 
     def __getattr__(self, k):
         raise Unsupported("np.linalg." + k)
@@ -963,7 +1068,10 @@ class NPFacade:
         if isinstance(x, (SymDA, SymND)):
             return x ** 0.5
         if type(x) is PNum:
-            raise Unsupported("sqrt of symbolic scalar")
+            r = z3.Real(f"sqrt[{z3.simplify(x.z)}]")
+            c = ctx()
+            c.facts += [r > 0, r * r == tm.rv(x.z)]
+            return PNum(r)
         return _np.sqrt(x)
 
     def abs(self, x):
